@@ -841,3 +841,53 @@ Proof.
   assert (Ha : a = 0%nat \/ a = 1%nat) by lia. assert (Hb : b = 0%nat \/ b = 1%nat) by lia.
   destruct Ha as [-> | ->], Hb as [-> | ->]; try lia; cbn; (split; [lia|]); intro H; try discriminate H; reflexivity.
 Qed.
+
+(* ---- wire format: ASCII-only payloads make the channel independent of the stream encoding ---- *)
+
+Definition ascii_preserving (f : Z -> list Z) : Prop := forall c, is_ascii c = true -> f c = [c].
+
+Lemma transcode_app f a b : transcode f (a ++ b) = transcode f a ++ transcode f b.
+Proof. unfold transcode. apply flat_map_app. Qed.
+
+Lemma transcode_ascii f t : ascii_preserving f -> ascii_text t = true -> transcode f t = t.
+Proof.
+  intros Hf. induction t as [|c t IH]; intro H; [reflexivity|].
+  cbn [ascii_text forallb] in H. apply andb_true_iff in H. destruct H as [Hc Ht].
+  unfold transcode in *. cbn [flat_map]. rewrite (Hf c Hc), (IH Ht). reflexivity.
+Qed.
+
+Lemma PRE_ascii : ascii_text PRE = true.
+Proof. reflexivity. Qed.
+
+Lemma transcode_render f cs : ascii_preserving f -> payloads_ascii cs = true ->
+  transcode f (render cs) = render (map (transcode_chunk f) cs).
+Proof.
+  intros Hf. induction cs as [|[s|p] cs IH]; intro H; [reflexivity| |]; cbn [render map transcode_chunk payloads_ascii] in *.
+  - rewrite transcode_app, (IH H). reflexivity.
+  - apply andb_true_iff in H. destruct H as [Hp H].
+    rewrite transcode_app, (transcode_ascii f PRE Hf PRE_ascii).
+    rewrite transcode_app, (transcode_ascii f p Hf Hp).
+    change (NL :: render cs) with ([NL] ++ render cs).
+    rewrite transcode_app, (transcode_ascii f [NL] Hf eq_refl), (IH H). reflexivity.
+Qed.
+
+Lemma payloads_of_transcode f cs : payloads_of (map (transcode_chunk f) cs) = payloads_of cs.
+Proof. induction cs as [|[s|p] cs IH]; [reflexivity| |]; cbn [map transcode_chunk payloads_of]; rewrite IH; reflexivity. Qed.
+
+Lemma payloads_ok_transcode f cs : payloads_ok (map (transcode_chunk f) cs) = payloads_ok cs.
+Proof. induction cs as [|[s|p] cs IH]; [reflexivity| |]; cbn [map transcode_chunk payloads_ok]; rewrite IH; reflexivity. Qed.
+
+Theorem encoding_independent f cs n :
+  ascii_preserving f -> payloads_ascii cs = true -> payloads_ok cs = true ->
+  noise_ok (map (transcode_chunk f) cs) = true ->
+  findall (transcode f (render cs)) = payloads_of cs /\
+  poll_model (transcode f (render cs)) = payloads_of cs /\
+  exists k, poll_model (firstn n (transcode f (render cs))) = firstn k (payloads_of cs).
+Proof.
+  intros Hf Ha Hp Hn. rewrite (transcode_render f cs Hf Ha).
+  rewrite <- (payloads_ok_transcode f) in Hp. rewrite <- (payloads_of_transcode f cs).
+  split; [exact (framing _ Hn Hp)|]. split.
+  - pose proof (polling_prefixes _ (length (render (map (transcode_chunk f) cs))) Hn Hp) as H.
+    rewrite firstn_all in H. rewrite H. apply delivered_upto_all. lia.
+  - rewrite (polling_prefixes _ n Hn Hp). apply delivered_upto_prefix.
+Qed.
